@@ -378,8 +378,8 @@ def invariants_case(cfg):
             re = evaluate_like_solve(solver, c)
             if abs(re - float(s)) > 1e-12:
                 return f"final entry {i} stores score {float(s)!r} but its circuit evaluates to {re!r}"
-    if solver.result is None or solver.result[1] is not solver.hof[0][1] or float(solver.result[0]) != float(solver.hof[0][0]):
-        return "result is not the first hall-of-fame entry"
+    if solver.result is None or not any(solver.result[1] is c and float(solver.result[0]) == float(s) for s, c in solver.hof):
+        return "result is not an entry (score, circuit) of the hall of fame"
     best = min(float(s) for s, _ in solver.hof)
     if float(solver.result[0]) != best:
         return f"result score {float(solver.result[0])!r} is not the best entry {best!r}"
